@@ -58,7 +58,6 @@ def check_term(term, bases, kind, out, objs=None, widx=None):
         ok = got == want
         exp = want
     else:
-        k = bases[term[1]][3] if (term[0] == "b" and len(bases[term[1]]) > 3) else kind
         exp = ("ok", expected_observation(_term_kind(term, bases, kind), want[1], want[2]))
         ok = got == exp
         if len(want[2]) >= 1 and term[0] != "b":
@@ -85,12 +84,14 @@ def algebra_terms(family, bases, sel, steps, small):
     B = range(len(bases))
     W = lambda t: term_width(t, bases)
 
-    def unary(t):
+    quick = len(steps) <= 2
+
+    def unary(t, margin=1):
         w = W(t)
         if w is None:
             return
         yield ["inv", t]
-        for key in slice_keys(w, steps):
+        for key in slice_keys(w, steps, margin):
             yield apply_key(t, key)
 
     if family == "u":          # b, u(b), u(u(b))
@@ -99,13 +100,13 @@ def algebra_terms(family, bases, sel, steps, small):
             yield b
             for d1 in unary(b):
                 yield d1
-                yield from unary(d1)
+                yield from unary(d1, 0 if quick else 1)     # quick tier: out-of-range clipping only at depth 1
     elif family == "a":        # b1+b2, u(b1+b2), (b1+b2)+b3, b3+(b1+b2)
         for k1 in sel:
             for k2 in B:
                 t = ["add", ["b", k1], ["b", k2]]
                 yield t
-                yield from unary(t)
+                yield from unary(t, 0 if quick else 1)
                 for k3 in (small if len(steps) == 1 else B):      # quick tier: third operand from the reduced pool
                     yield ["add", t, ["b", k3]]
                     yield ["add", ["b", k3], t]
@@ -179,7 +180,7 @@ def algebra_tasks(rep):
             tasks.append(("A", (kind, "m", [k], maxw, (None,) if rep.quick else steps, small)))
             tasks.append(("A", (kind, "a", [k], maxw, (None,) if rep.quick else steps, small)))
         for k in small:
-            tasks.append(("A", (kind, "dd", [k], maxw, (None,) if rep.quick else (None, -1), small)))
+            tasks.append(("A", (kind, "dd", [k], maxw, (None,) if rep.quick else (None, -1, 2), small)))
     tasks.append(("Amix", (2,)))
     return tasks
 
@@ -361,7 +362,6 @@ def w_sim(cases):
     warnings.simplefilter("ignore")
     out = _new_out()
     for bases, term in cases:
-        pdir = ref(term, bases)[1]
         for bufdir in DIRS:
             sim_case({"leg": "simbuf", "bases": bases, "term": term, "bufdir": bufdir}, out)
     return out
@@ -503,7 +503,7 @@ class FFSpec:
 def ff_configs(rep):
     cfgs = []
     doms_all = [(None, None, {}), ("a", "b", {}), ("a", None, {"a": "neg"}), (None, "b", {"b": "neg"})]
-    for w in (1, 2):
+    for w in rep.pick((1, 2), (1, 2, 3)):
         for mask in range(1 << w):
             for pdir, bufdir in (("i", "i"), ("o", "o"), ("io", "i"), ("io", "o"), ("io", "io")):
                 for di, (i_dom, o_dom, edges) in enumerate(doms_all):
@@ -945,8 +945,11 @@ WORKERS = {"A": w_algebra, "Amix": w_algebra_mixed, "B": w_sim, "C": w_ff, "D": 
 
 
 def _dispatch(t):
+    import time
+    t0 = time.process_time()
     out = WORKERS[t[0]](t[1])
     out["leg"] = t[0]
+    out["cov"]["cpu_s_leg_" + t[0][0]] = round(time.process_time() - t0, 3)
     return out
 
 
@@ -987,6 +990,9 @@ def run(rep):
     ff_zero_width(out)
     rep.merge(out)
     cov = rep.cov
+    for k in list(cov):
+        if k.startswith("cpu_s_leg_"):
+            cov[k] = round(cov[k], 1)
     rep.setcov("sim_expressions", len(sc))
     rep.setcov("net_expressions", len(nc))
     rep.setcov("ff_flags_seen", sorted(flags))
@@ -1007,9 +1013,16 @@ def run(rep):
                           "with positive step excluded (core Value/IOValue slicing raises IndexError for them)",
         "algebra_families": "u(u(b)); b1+b2, u(b1+b2), (b1+b2)+b3, b3+(b1+b2); u(b1)+b2, b2+u(b1); d1+d1' over bases of width<=%d" % rep.pick(1, 2),
         "sim_add_width_sum_max": rep.pick(4, 6), "net_add_width_sum_max": rep.pick(4, 6),
-        "ff_widths": [1, 2]})
+        "ff_widths": list(rep.pick((1, 2), (1, 2, 3)))})
+    for case in ({"leg": "simbuf", "bases": [[3, 0b011, "io"]], "term": ["inv", ["sl", ["b", 0], None, None, -1]], "bufdir": "io"},
+                 {"leg": "net", "kind": "diff", "bases": [[2, 0b01, "io"], [1, 1, "o"]], "term": ["add", ["b", 0], ["b", 1]],
+                  "bufdir": "o", "cls": "FFBuffer"}):
+        one = _new_out()
+        (sim_case if case["leg"] == "simbuf" else net_case)(case, one)
+        rep.sample({"case": f"{case.get('cls', 'Buffer')}({case['bufdir']}) on {case.get('kind', 'sim')} {term_str(case['term'], case['bases'])}",
+                    "measured": {k: v for k, v in one["cov"].items() if v}, "violations": len(one["violations"])}, limit=20)
     rep.sample({"expression": "~b0[::-1] on SimulationPort(io, 3, invert=0b011)",
-                "reference": list(map(list, ref(["inv", ["sl", ["b", 0], None, None, -1]], [[3, 0b011, "io"]])[2]))})
+                "reference": list(map(list, ref(["inv", ["sl", ["b", 0], None, None, -1]], [[3, 0b011, "io"]])[2]))}, limit=20)
     # ---- vacuity guards: every antecedent the invariants rely on was exercised
     need = {"algebra_rejections": "port expressions that must raise", "algebra_mixed_inversion_results": "results with a mixed inversion tuple",
             "algebra_mixed_kind": "`+` across port classes", "sim_illegal_pairs": "illegal port/buffer direction pairs",
